@@ -120,7 +120,7 @@ CHECKS["C14"] = {
     "bounds": {"quick": "histories of <=3 operations (78-operation alphabet)", "thorough": "histories of <=4 operations"},
     "assumptions": ["session persistence (store goroutines) is not observed here (C16)"],
     "units": [
-        {"name": "mqttproxy", "pkg": "pkg/object/mqttproxy", "test": "TestVerifC14", "instrument": [TOPICINSTR]},
+        {"name": "mqttproxy", "pkg": "pkg/object/mqttproxy", "test": "TestVerifC14", "instrument": [TOPICINSTR], "deadline_s": {"quick": 600, "thorough": 2400}},
         # connection-level histories (reconnect, take-over, admin delete ...) on the real broker: harness shared with C16; what is
         # routed to the current connection must be exactly its live subscriptions
         {"name": "sessions", "pkg": "pkg/object/mqttproxy", "test": "TestVerifC16", "inject": [BROKERRIG, ["pkg/object/mqttproxy", "harness/C16/mqttproxy"]], "instrument": BROKERINSTR},
